@@ -19,10 +19,16 @@ class Keyboard(object):
         self.typed = []              # (name, text) actually answered
         self.current = None
         self.interrupted = False
+        self.repeats = 0             # re-prompts for the current question (the command asks again after an invalid answer)
 
     def __call__(self, prompt=""):
         m = re.search(r"----\[ (.+?) \]----", prompt)
+        if not m:
+            self.repeats += 1
+            if self.repeats > 3:
+                raise EOFError()     # the scripted answer is not accepted: end of input instead of answering it for ever
         if m:
+            self.repeats = 0
             self.current = m.group(1)
             self.questions.append(self.current)
             if self.interrupt_at is not None and len(self.questions) == self.interrupt_at:
